@@ -3,8 +3,9 @@
 package vamana
 
 // VerifSearchStep, when installed by a test harness, is called before every
-// node expansion of the greedy search (only compiled with -tags verif). It may
-// block there to hold a search in the middle of its graph walk.
+// node expansion of the greedy search and between reading a node's neighbours
+// and publishing them (only compiled with -tags verif). It may block there to
+// hold a search in the middle of its graph walk.
 var VerifSearchStep func()
 
 func verifSearchStep() {
